@@ -290,7 +290,8 @@ public:
             _does_alias = false;
             // Evaluate this into a temporary
             auto tmp_this_tensor = get_tensor();
-            auto tmp = TensorViewExpr<TensorType<T,Rest...>,DIMS>(tmp_this_tensor,get_sequences());
+            TensorMap<T,Rest...> tmp_this_map(tmp_this_tensor.data());
+            auto tmp = TensorViewExpr<TensorMap<T,Rest...>,DIMS>(tmp_this_map,get_sequences());
             // Assign other to temporary
             tmp = other;
             // assign temporary to this
@@ -378,7 +379,9 @@ public:
             _does_alias = false;
             // Evaluate this into a temporary
             auto tmp_this_tensor = get_tensor();
-            auto tmp = TensorViewExpr<Tensor<T,Rest...>,DIMS>(tmp_this_tensor,get_sequences());
+            // view of the temporary through a map: the same class for every rank and for Tensor and TensorMap alike
+            TensorMap<T,Rest...> tmp_this_map(tmp_this_tensor.data());
+            auto tmp = TensorViewExpr<TensorMap<T,Rest...>,DIMS>(tmp_this_map,get_sequences());
             // Assign other to temporary
             tmp = other;
             // assign temporary to this
@@ -492,7 +495,9 @@ public:
             _does_alias = false;
             // Evaluate this into a temporary
             auto tmp_this_tensor = get_tensor();
-            auto tmp = TensorViewExpr<Tensor<T,Rest...>,DIMS>(tmp_this_tensor,get_sequences());
+            // view of the temporary through a map: the same class for every rank and for Tensor and TensorMap alike
+            TensorMap<T,Rest...> tmp_this_map(tmp_this_tensor.data());
+            auto tmp = TensorViewExpr<TensorMap<T,Rest...>,DIMS>(tmp_this_map,get_sequences());
             // Assign other to temporary
             tmp = other;
             // assign temporary to this
@@ -577,7 +582,9 @@ public:
             _does_alias = false;
             // Evaluate this into a temporary
             auto tmp_this_tensor = get_tensor();
-            auto tmp = TensorViewExpr<Tensor<T,Rest...>,DIMS>(tmp_this_tensor,get_sequences());
+            // view of the temporary through a map: the same class for every rank and for Tensor and TensorMap alike
+            TensorMap<T,Rest...> tmp_this_map(tmp_this_tensor.data());
+            auto tmp = TensorViewExpr<TensorMap<T,Rest...>,DIMS>(tmp_this_map,get_sequences());
             // Assign other to temporary
             tmp = other;
             // assign temporary to this
@@ -661,7 +668,9 @@ public:
             _does_alias = false;
             // Evaluate this into a temporary
             auto tmp_this_tensor = get_tensor();
-            auto tmp = TensorViewExpr<Tensor<T,Rest...>,DIMS>(tmp_this_tensor,get_sequences());
+            // view of the temporary through a map: the same class for every rank and for Tensor and TensorMap alike
+            TensorMap<T,Rest...> tmp_this_map(tmp_this_tensor.data());
+            auto tmp = TensorViewExpr<TensorMap<T,Rest...>,DIMS>(tmp_this_map,get_sequences());
             // Assign other to temporary
             tmp = other;
             // assign temporary to this
@@ -745,7 +754,9 @@ public:
             _does_alias = false;
             // Evaluate this into a temporary
             auto tmp_this_tensor = get_tensor();
-            auto tmp = TensorViewExpr<Tensor<T,Rest...>,DIMS>(tmp_this_tensor,get_sequences());
+            // view of the temporary through a map: the same class for every rank and for Tensor and TensorMap alike
+            TensorMap<T,Rest...> tmp_this_map(tmp_this_tensor.data());
+            auto tmp = TensorViewExpr<TensorMap<T,Rest...>,DIMS>(tmp_this_map,get_sequences());
             // Assign other to temporary
             tmp = other;
             // assign temporary to this
@@ -832,7 +843,9 @@ public:
             _does_alias = false;
             // Evaluate this into a temporary
             auto tmp_this_tensor = get_tensor();
-            auto tmp = TensorViewExpr<Tensor<T,Rest...>,DIMS>(tmp_this_tensor,get_sequences());
+            // view of the temporary through a map: the same class for every rank and for Tensor and TensorMap alike
+            TensorMap<T,Rest...> tmp_this_map(tmp_this_tensor.data());
+            auto tmp = TensorViewExpr<TensorMap<T,Rest...>,DIMS>(tmp_this_map,get_sequences());
             // Assign other to temporary
             tmp = other;
             // assign temporary to this
@@ -913,7 +926,9 @@ public:
             _does_alias = false;
             // Evaluate this into a temporary
             auto tmp_this_tensor = get_tensor();
-            auto tmp = TensorViewExpr<Tensor<T,Rest...>,DIMS>(tmp_this_tensor,get_sequences());
+            // view of the temporary through a map: the same class for every rank and for Tensor and TensorMap alike
+            TensorMap<T,Rest...> tmp_this_map(tmp_this_tensor.data());
+            auto tmp = TensorViewExpr<TensorMap<T,Rest...>,DIMS>(tmp_this_map,get_sequences());
             // Assign other to temporary
             tmp = other;
             // assign temporary to this
@@ -997,7 +1012,9 @@ public:
             _does_alias = false;
             // Evaluate this into a temporary
             auto tmp_this_tensor = get_tensor();
-            auto tmp = TensorViewExpr<Tensor<T,Rest...>,DIMS>(tmp_this_tensor,get_sequences());
+            // view of the temporary through a map: the same class for every rank and for Tensor and TensorMap alike
+            TensorMap<T,Rest...> tmp_this_map(tmp_this_tensor.data());
+            auto tmp = TensorViewExpr<TensorMap<T,Rest...>,DIMS>(tmp_this_map,get_sequences());
             // Assign other to temporary
             tmp = other;
             // assign temporary to this
@@ -1080,7 +1097,9 @@ public:
             _does_alias = false;
             // Evaluate this into a temporary
             auto tmp_this_tensor = get_tensor();
-            auto tmp = TensorViewExpr<Tensor<T,Rest...>,DIMS>(tmp_this_tensor,get_sequences());
+            // view of the temporary through a map: the same class for every rank and for Tensor and TensorMap alike
+            TensorMap<T,Rest...> tmp_this_map(tmp_this_tensor.data());
+            auto tmp = TensorViewExpr<TensorMap<T,Rest...>,DIMS>(tmp_this_map,get_sequences());
             // Assign other to temporary
             tmp = other;
             // assign temporary to this
@@ -1164,7 +1183,9 @@ public:
             _does_alias = false;
             // Evaluate this into a temporary
             auto tmp_this_tensor = get_tensor();
-            auto tmp = TensorViewExpr<Tensor<T,Rest...>,DIMS>(tmp_this_tensor,get_sequences());
+            // view of the temporary through a map: the same class for every rank and for Tensor and TensorMap alike
+            TensorMap<T,Rest...> tmp_this_map(tmp_this_tensor.data());
+            auto tmp = TensorViewExpr<TensorMap<T,Rest...>,DIMS>(tmp_this_map,get_sequences());
             // Assign other to temporary
             tmp = other;
             // assign temporary to this
